@@ -37,6 +37,10 @@ pub struct OpRec<S: Sut> {
 pub enum Blob<S> {
     Json(String),
     Mem(S),
+    /// serde_json text plus the in-memory value it was made from: used outside the C19 scenarios, where a
+    /// failure of serde itself is not the property under test (the value is used if the text does not read
+    /// back) but a lossy read-back must show through the property's own oracles
+    Both(String, S),
 }
 
 pub struct Held<S> {
@@ -262,9 +266,18 @@ impl<S: Sut> World<S> {
         }
     }
 
+    /// C19 scenarios judge serde itself; elsewhere JSON is just the durable / wire form
+    pub fn serde_strict(&self) -> bool {
+        self.cfg.on("serde.probe") || self.cfg.on("restart.ghost")
+    }
+
     fn decode(&self, b: &Blob<S>) -> Result<S, Failure> {
         match b {
             Blob::Mem(s) => Ok(s.clone()),
+            Blob::Both(t, s) => match guard(|| S::de(t)) {
+                Ok(Ok(x)) => Ok(x),
+                _ => Ok(s.clone()),
+            },
             Blob::Json(t) => match guard(|| S::de(t)) {
                 Ok(Ok(s)) => Ok(s),
                 Ok(Err(e)) => self.fail("serde.de", format!("state does not deserialise: {}", dq(e))),
@@ -277,6 +290,12 @@ impl<S: Sut> World<S> {
     fn encode(&mut self, s: &S, what: &str) -> Blob<S> {
         if !self.cfg.json_wire {
             return Blob::Mem(s.clone());
+        }
+        if !self.serde_strict() {
+            return match guard(|| s.ser()) {
+                Ok(Ok(t)) => Blob::Both(t, s.clone()),
+                _ => Blob::Mem(s.clone()),
+            };
         }
         match guard(|| s.ser()) {
             Ok(Ok(t)) => Blob::Json(t),
@@ -724,7 +743,16 @@ impl<S: Sut> World<S> {
             }
         }
         // wire form
-        let wire_op = if self.cfg.json_wire {
+        let wire_op = if self.cfg.json_wire && !self.serde_strict() {
+            // JSON as plain transport: use what the peer would read back, or the op itself if serde fails
+            match guard(|| S::ser_op(&op)) {
+                Ok(Ok(t)) => match guard(|| S::de_op(&t)) {
+                    Ok(Ok(o2)) => o2,
+                    _ => op.clone(),
+                },
+                _ => op.clone(),
+            }
+        } else if self.cfg.json_wire {
             match guard(|| S::ser_op(&op)) {
                 Ok(Ok(t)) => match guard(|| S::de_op(&t)) {
                     Ok(Ok(o2)) => {
@@ -915,7 +943,7 @@ impl<S: Sut> World<S> {
         if let Some(sh) = self.nodes[dst].shadow.as_mut() {
             // the twin merges the never-serialised form when there is one
             let inc = match &blob {
-                Blob::Mem(s) => s.clone(),
+                Blob::Mem(s) | Blob::Both(_, s) => s.clone(),
                 Blob::Json(_) => incoming.clone(),
             };
             if let Err(p) = guard(|| sh.merge(inc)) {
@@ -1051,6 +1079,20 @@ impl<S: Sut> World<S> {
             return Ok(false);
         }
         let st = self.nodes[node].state.clone().unwrap();
+        if !self.serde_strict() {
+            // restart from the serialised form; serde problems as such belong to C19
+            let back = match guard(|| st.ser()) {
+                Ok(Ok(t)) => match guard(|| S::de(&t)) {
+                    Ok(Ok(b)) => b,
+                    _ => return Ok(false),
+                },
+                _ => return Ok(false),
+            };
+            self.nodes[node].state = Some(back);
+            self.stats.bounces += 1;
+            self.check_node(node)?;
+            return Ok(true);
+        }
         let text = match guard(|| st.ser()) {
             Ok(Ok(t)) => t,
             Ok(Err(e)) => {
